@@ -291,6 +291,10 @@ def judge_chunks(case):
     elif kind == "tuple_it":
         el = RunningChunkBy(size, tuple, from_iterable=True)
         cont = tuple
+    elif kind == "deque":
+        import collections
+        el = RunningChunkBy(size, collections.deque, from_iterable=True)
+        cont = collections.deque
     else:
         nt = _NT[size]
         el = RunningChunkBy(size, nt)
@@ -302,6 +306,8 @@ def judge_chunks(case):
         raise Violation("running-chunks-differ-from-sliding-windows",
                         "RunningChunkBy(%d,%s) on range(%d): %s, expected %s" % (
                             size, kind, n, short(got), short(exp)))
+    if len(set(id(g) for g in got)) != len(got) and kind != "tuple":
+        raise Violation("running-chunks-are-one-object", "RunningChunkBy(%d,%s) on range(%d) yields the same object several times" % (size, kind, n))
     if not case.get("as_iter", True):
         # the same element again, the flow handed over as every kind of iterable
         for cname, mk in containers_for(xs):
@@ -321,7 +327,7 @@ def judge_chunks(case):
 
 def cases_chunks(tier):
     for size, n, kind, as_iter in itertools.product(
-            range(1, 6), range(0, 11), ["tuple", "list", "tuple_it", "namedtuple"],
+            range(1, 6), range(0, 11), ["tuple", "list", "tuple_it", "namedtuple", "deque"],
             [True, False]):
         yield {"size": size, "n": n, "container": kind, "as_iter": as_iter}
         if n:
@@ -336,8 +342,10 @@ def strat_misc(tier):
         st.fixed_dictionaries({"kind": st.just("chain"),
                                "its": st.lists(ints, max_size=4)}),
         st.fixed_dictionaries({"kind": st.just("countfrom"),
-                               "start": st.one_of(st.integers(-100, 100),
-                                                  st.floats(-10, 10)),
+                               "start": st.one_of(st.integers(-100, 100), st.integers(-100, 100),
+                                                  st.floats(-10, 10),
+                                                  # around the largest machine integers (itertools.count has no bound)
+                                                  st.builds(lambda b, d: b + d, st.sampled_from([2 ** 31, 2 ** 63, 2 ** 64, -2 ** 63, 10 ** 30]), st.integers(-5, 5))),
                                "step": st.one_of(st.integers(-5, 5),
                                                  st.floats(-3, 3)),
                                "take": st.integers(0, 20)}),
@@ -348,6 +356,19 @@ def judge_misc(case):
     k = case["kind"]
     if k == "reverse":
         xs = case["xs"]
+        # an error raised by the flow while Reverse reads it is not the end of the flow
+        for exc in (IndexError, KeyError, ValueError, RuntimeError):
+            def failing(exc=exc):
+                for v in xs:
+                    yield v
+                raise exc("upstream failed")
+            try:
+                res = list(Reverse().run(failing()))
+            except exc:
+                pass
+            else:
+                raise Violation("reverse-swallows-an-error-of-the-flow",
+                                "Reverse over a flow of %d values that then raises %s yields %s" % (len(xs), exc.__name__, short(res)))
         if case["in_seq"]:
             got = list(Sequence(Reverse()).run(list(xs)))
         else:
